@@ -96,6 +96,7 @@ type kind struct {
 	size     float64 // points
 	xoff     int32   // face offsets in font units (as FontFamily.Face sets for sub/superscript)
 	yoff     int32
+	italic   float64 // FauxItalic of the face (what FontFamily.Face sets when the family has no italic style)
 	build    func(face *canvas.FontFace, s string) *canvas.Text
 	m        canvas.Matrix
 	vertical bool
@@ -162,7 +163,35 @@ var kinds = []kind{
 			rt.WriteString(s)
 			return rt.ToText(0, 0, canvas.Left, canvas.Top, 0, 0)
 		}},
+	// faux italic faces (nBaseKinds..): the shear belongs to the glyphs' own frame, also where the span is turned
+	{name: "NewTextLine(face 12pt with FauxItalic=0.3, s, Left)", size: 12, italic: 0.3, m: viewPlain,
+		build: func(f *canvas.FontFace, s string) *canvas.Text { return canvas.NewTextLine(f, s, canvas.Left) }},
+	{name: "RichText(face 12pt with FauxItalic=0.3).SetWritingMode(VerticalRL).WriteString(s).ToText(0, 0, Left, Top, 0, 0)", size: 12, italic: 0.3, m: viewPlain, vertical: true,
+		build: func(f *canvas.FontFace, s string) *canvas.Text {
+			rt := canvas.NewRichText(f)
+			rt.SetWritingMode(canvas.VerticalRL)
+			rt.WriteString(s)
+			return rt.ToText(0, 0, canvas.Left, canvas.Top, 0, 0)
+		}},
+	{name: "RichText(face 8pt with XOffset=37 YOffset=350 font units and FauxItalic=0.3).SetWritingMode(VerticalLR).WriteString(s).ToText(0, 0, Left, Top, 0, 0) drawn with Translate(30,25).Rotate(30).Scale(1.5,1.5)", size: 8, xoff: 37, yoff: 350, italic: 0.3, m: viewRotated, vertical: true,
+		build: func(f *canvas.FontFace, s string) *canvas.Text {
+			rt := canvas.NewRichText(f)
+			rt.SetWritingMode(canvas.VerticalLR)
+			rt.WriteString(s)
+			return rt.ToText(0, 0, canvas.Left, canvas.Top, 0, 0)
+		}},
+	{name: "RichText(face 12pt with FauxItalic=0.3).SetWritingMode(VerticalRL).SetTextOrientation(Upright).WriteString(s).ToText(0, 0, Left, Top, 0, 0)", size: 12, italic: 0.3, m: viewPlain, vertical: true,
+		build: func(f *canvas.FontFace, s string) *canvas.Text {
+			rt := canvas.NewRichText(f)
+			rt.SetWritingMode(canvas.VerticalRL)
+			rt.SetTextOrientation(canvas.Upright)
+			rt.WriteString(s)
+			return rt.ToText(0, 0, canvas.Left, canvas.Top, 0, 0)
+		}},
 }
+
+// nBaseKinds: the layouts every family runs; the faux italic layouts after them have families of their own
+const nBaseKinds = 11
 
 const (
 	kindLine      = 0
@@ -173,6 +202,7 @@ const (
 func (k *kind) face(cf *canvas.Font) *canvas.FontFace {
 	face := cf.Face(k.size, canvas.Black)
 	face.XOffset, face.YOffset = k.xoff, k.yoff
+	face.FauxItalic = k.italic
 	return face
 }
 
@@ -193,6 +223,7 @@ type spanL struct {
 	upem     int
 	src      *fontSrc
 	rotation float64 // degrees
+	italic   float64 // faux italic: the glyphs are sheared in their own frame about the baseline of the face
 	width    float64
 	text     string
 	glyphs   []glyphL
@@ -239,7 +270,7 @@ func record(t *canvas.Text, src *fontSrc, k int, s string) drawL {
 			panic("object span in a text-only layout")
 		}
 		l := spanL{x: x, y: y, size: sp.Face.Size, upem: int(sp.Face.Font.SFNT.Head.UnitsPerEm), src: src,
-			rotation: float64(sp.Rotation), width: sp.Width, text: sp.Text}
+			rotation: float64(sp.Rotation), italic: sp.Face.FauxItalic, width: sp.Width, text: sp.Text}
 		for _, g := range sp.Glyphs {
 			l.glyphs = append(l.glyphs, glyphL{id: int(g.ID), xadv: int(g.XAdvance), yadv: int(g.YAdvance),
 				xoff: int(g.XOffset), yoff: int(g.YOffset), vertical: g.Vertical, cluster: int(g.Cluster), text: g.Text})
@@ -260,7 +291,9 @@ func (sp *spanL) glyphOrigin(i int) (float64, float64) {
 	}
 	g := sp.glyphs[i]
 	f := sp.size / float64(sp.upem)
-	dx, dy := rot(sp.rotation, f*float64(px+g.xoff), f*float64(py+g.yoff))
+	// faux italic shears the span in its own frame about the baseline of the face (where sp.x, sp.y is):
+	// what lies above the baseline moves forward
+	dx, dy := rot(sp.rotation, f*float64(px+g.xoff)+sp.italic*f*float64(py+g.yoff), f*float64(py+g.yoff))
 	return sp.x + dx, sp.y + dy
 }
 
